@@ -190,6 +190,10 @@ func (w *c08World) jsonBody(c *c08Case, rng *rand.Rand) string {
 			return `,{"encoding":"nope"}`
 		case "bad-sigs":
 			return `,{"before":"zzz","until":"!!!"}`
+		case "null-members":
+			return `,{"encoding":"base64","rewards":null,"commitment":null,"transactionDetails":null,"maxSupportedTransactionVersion":null,"limit":null,"before":null,"until":null}`
+		case "null-encoding":
+			return `,{"encoding":null}`
 		case "huge-limit":
 			return `,{"limit":1e15,"encoding":"base58"}`
 		default:
